@@ -24,16 +24,8 @@ open Px.Parser (Parser Headers)
 open Px.Url (Url utf8Valid)
 open Px.Build (rebuildHeaders buildRequest bodyOrChunks)
 
-/-- the request path can be decoded (`text_(path)`) whenever a route is registered -/
-def PathOk (t : Table) (req : Parser) : Prop :=
-  t.any (fun p => !p.isEmpty) = true → utf8Valid (webPath req) = true
-
-theorem guard_false (t : Table) (req : Parser) (hp : PathOk t req) :
-    (t.any (fun p => !p.isEmpty) && !utf8Valid (webPath req)) = false := by
-  by_cases ht : t.any (fun p => !p.isEmpty) = true
-  · rw [ht, hp ht]; rfl
-  · have : t.any (fun p => !p.isEmpty) = false := by simpa using ht
-    rw [this]; rfl
+/-- the request path decodes as UTF-8 (otherwise the request is answered with 400, `C12_bad_path_400`) -/
+def PathOk (req : Parser) : Prop := utf8Valid (webPath req) = true
 
 /-- `emit_request_complete()` returns normally: events are off, or the request has a Host field
     and its Host value, path, method and header names/values decode as UTF-8 -/
@@ -45,7 +37,29 @@ theorem emitOk_of_events_off (req : Parser) : EmitOk false req := by
 theorem onRequestCompleteEv_eq (cfg : Cfg) (ev : Bool) (m : Nat → Bool) (pick : Nat → Nat) (connectOk : Bool)
     (t : Table) (req : Parser) (s : St) (h : EmitOk ev req) :
     onRequestCompleteEv cfg ev m pick connectOk t req s = onRequestComplete cfg m pick connectOk t req s := by
-  unfold onRequestCompleteEv; rw [h]
+  unfold onRequestCompleteEv onRequestComplete; rw [h]
+
+theorem onRequestCompleteEv_route (cfg : Cfg) (ev : Bool) (m : Nat → Bool) (pick : Nat → Nat) (connectOk : Bool)
+    (t : Table) (req : Parser) (s : St) (hp : PathOk req) (h : EmitOk ev req) :
+    onRequestCompleteEv cfg ev m pick connectOk t req s = routeRequest cfg m pick connectOk t req s := by
+  unfold onRequestCompleteEv; rw [h, hp]; rfl
+
+/-- **C12 undecodable path ⇒ 400, no upstream.**  A request whose path is not valid UTF-8 is
+answered with exactly the generated `BAD_REQUEST_RESPONSE_PKT` and torn down before
+`emit_request_complete()` and before any routing: whatever the route table, the match table,
+the events setting and the connect outcome are, nothing is connected and no upstream exists. -/
+theorem C12_bad_path_400 (cfg : Cfg) (ev : Bool) (m : Nat → Bool) (pick : Nat → Nat) (connectOk : Bool)
+    (t : Table) (req : Parser) (s : St) (hbad : utf8Valid (webPath req) = false) :
+    onRequestCompleteEv cfg ev m pick connectOk t req s =
+      ⟨{ s with client := s.client.queue cfg.badRequest }, true, none⟩ ∧
+    (onRequestCompleteEv cfg ev m pick connectOk t req s).st.connects = s.connects ∧
+    (onRequestCompleteEv cfg ev m pick connectOk t req s).st.upstream = s.upstream ∧
+    ({} : Cfg).badRequest = Px.Gen.pkt_BAD_REQUEST_RESPONSE_PKT ∧
+    startsWith Px.Gen.pkt_BAD_REQUEST_RESPONSE_PKT (b "HTTP/1.1 400 ") = true := by
+  have h : onRequestCompleteEv cfg ev m pick connectOk t req s =
+      ⟨{ s with client := s.client.queue cfg.badRequest }, true, none⟩ := by
+    unfold onRequestCompleteEv; rw [hbad]; rfl
+  exact ⟨h, by rw [h], by rw [h], rfl, by decide +kernel⟩
 
 /-- **C12 events are a no-op for forwarding.**  `emit_request_complete()` publishes a copy and hands
 the unchanged request on: whenever it does not raise, `--enable-events` changes nothing about what
@@ -59,7 +73,7 @@ theorem C12_events_noop (cfg : Cfg) (m : Nat → Bool) (pick : Nat → Nat) (con
       onRequestCompleteEv_eq cfg false m pick connectOk t req s (emitOk_of_events_off req)]
 
 /-- a request as the web server plugin sees it: origin-form target, so `path` is set -/
-def WebReq (t : Table) (req : Parser) : Prop := req.path.isSome = true ∧ PathOk t req
+def WebReq (req : Parser) : Prop := req.path.isSome = true ∧ PathOk req
 
 /-- **C12 no route ⇒ 404.**  When no registered route matches the path the
 client is queued exactly the generated `NOT_FOUND_RESPONSE_PKT`, the
@@ -67,7 +81,7 @@ connection is torn down, nothing is connected or wrapped and no upstream
 exists — whatever the table, the `random.choice` outcomes, the connect outcome
 and the request are. -/
 theorem C12_no_route_404 (cfg : Cfg) (ev : Bool) (m : Nat → Bool) (pick : Nat → Nat) (connectOk : Bool) (t : Table)
-    (req : Parser) (s : St) (hev : EmitOk ev req) (hp : PathOk t req) (hno : anyMatch m t = false) :
+    (req : Parser) (s : St) (hev : EmitOk ev req) (hp : PathOk req) (hno : anyMatch m t = false) :
     onRequestCompleteEv cfg ev m pick connectOk t req s =
       ⟨{ s with client := s.client.queue cfg.notFound }, true, none⟩ ∧
     (onRequestCompleteEv cfg ev m pick connectOk t req s).st.connects = s.connects ∧
@@ -75,9 +89,9 @@ theorem C12_no_route_404 (cfg : Cfg) (ev : Bool) (m : Nat → Bool) (pick : Nat 
     ({} : Cfg).notFound = Px.Gen.pkt_NOT_FOUND_RESPONSE_PKT := by
   have h : onRequestCompleteEv cfg ev m pick connectOk t req s =
       ⟨{ s with client := s.client.queue cfg.notFound }, true, none⟩ := by
-    rw [onRequestCompleteEv_eq _ _ _ _ _ _ _ _ hev]
-    unfold onRequestComplete
-    simp only [guard_false t req hp, Bool.false_eq_true, if_false, hno]
+    rw [onRequestCompleteEv_route _ _ _ _ _ _ _ _ hp hev]
+    unfold routeRequest
+    simp only [hno, Bool.false_eq_true, if_false]
   exact ⟨h, by rw [h], by rw [h], rfl⟩
 
 /-- the generated 404 packet is what the property calls a 404 (re-checked against
@@ -147,7 +161,7 @@ connection is not torn down; the client has been queued only the literal
 responses of literal hits. -/
 theorem C12_target (cfg : Cfg) (ev : Bool) (m : Nat → Bool) (pick : Nat → Nat) (t : Table) (req : Parser) (s : St)
     (u : Url) (h mth ver : Bytes)
-    (hev : EmitOk ev req) (hweb : WebReq t req) (hany : anyMatch m t = true)
+    (hev : EmitOk ev req) (hweb : WebReq req) (hany : anyMatch m t = true)
     (hc : Clean cfg pick (hits m 0 t))
     (hw : ((hits m 0 t).filterMap (urlOf cfg pick)).getLast? = some u)
     (hh : HostOk u h) (hb : Buildable req mth ver) (hn : cfg.bufSize ≠ 0) :
@@ -173,10 +187,9 @@ theorem C12_target (cfg : Cfg) (ev : Bool) (m : Nat → Bool) (pick : Nat → Na
     cases hl : (hits m 0 t).filterMap (urlOf cfg pick) with
     | nil => rw [hl] at hw; simp at hw
     | cons _ _ => rfl
-  rw [onRequestCompleteEv_eq _ _ _ _ _ _ _ _ hev]
-  unfold onRequestComplete
-  have hguard := guard_false t req hweb.2
-  simp only [hguard, Bool.false_eq_true, if_false, hany, if_true]
+  rw [onRequestCompleteEv_route _ _ _ _ _ _ _ _ hweb.2 hev]
+  unfold routeRequest
+  simp only [hany, if_true]
   unfold handleRequest
   simp only [hpath, Bool.false_and, Bool.false_eq_true, if_false]
   rw [routeLoop_clean cfg m pick t 0 s false hc]
@@ -351,7 +364,7 @@ URL (all matching first routes are dynamic routes answering with a literal
 response), exactly those literal responses are queued to the client, in plugin
 order, nothing is connected, no upstream exists and the connection stays up. -/
 theorem C12_dynamic_literal (cfg : Cfg) (ev : Bool) (m : Nat → Bool) (pick : Nat → Nat) (connectOk : Bool) (t : Table)
-    (req : Parser) (s : St) (hev : EmitOk ev req) (hweb : WebReq t req) (hany : anyMatch m t = true)
+    (req : Parser) (s : St) (hev : EmitOk ev req) (hweb : WebReq req) (hany : anyMatch m t = true)
     (hc : Clean cfg pick (hits m 0 t))
     (hnone : (hits m 0 t).filterMap (urlOf cfg pick) = []) :
     onRequestCompleteEv cfg ev m pick connectOk t req s =
@@ -360,11 +373,10 @@ theorem C12_dynamic_literal (cfg : Cfg) (ev : Bool) (m : Nat → Bool) (pick : N
     (hits m 0 t).filterMap (litOf cfg pick) ≠ [] := by
   have hpath : req.path.isNone = false := by
     have := hweb.1; cases hq : req.path <;> simp_all
-  have hguard := guard_false t req hweb.2
   constructor
-  · rw [onRequestCompleteEv_eq _ _ _ _ _ _ _ _ hev]
-    unfold onRequestComplete
-    simp only [hguard, Bool.false_eq_true, if_false, hany, if_true]
+  · rw [onRequestCompleteEv_route _ _ _ _ _ _ _ _ hweb.2 hev]
+    unfold routeRequest
+    simp only [hany, if_true]
     unfold handleRequest
     simp only [hpath, Bool.false_and, Bool.false_eq_true, if_false]
     rw [routeLoop_clean cfg m pick t 0 s false hc]
@@ -427,8 +439,8 @@ def exTable : Table :=
 def exUrl : Url :=
   { scheme := some (b "https"), hostname := some (b "httpbingo.org"), port := some 8443 }
 
-example : WebReq exTable exReq := by
-  refine ⟨rfl, fun _ => ?_⟩; decide +kernel
+example : WebReq exReq := by
+  refine ⟨rfl, ?_⟩; unfold PathOk; decide +kernel
 example : Buildable exReq (b "GET") (b "HTTP/1.1") := by
   refine ⟨rfl, ?_, rfl, ?_, rfl⟩ <;> decide +kernel
 example : HdrNamesDistinct exReq := by
@@ -454,7 +466,8 @@ example : portOf {} exUrl = 8443 ∧ hostArg { rewriteHost := true } exUrl (b "h
   decide +kernel
 example : anyMatch (fun i => i == 0) exTable = true ∧ anyMatch (fun _ => false) exTable = false := by
   decide +kernel
-example : PathOk exTable exReq := by intro _; decide +kernel
+example : PathOk exReq := by unfold PathOk; decide +kernel
+example : utf8Valid (webPath { exReq with path := some [47, 255] }) = false := by decide +kernel
 example : emitRequestComplete true { exReq with port := some 80 } = none := by decide +kernel
 example : emitRequestComplete true { exReq with port := some 80, headers := none } = some .keyError := by
   decide +kernel
